@@ -140,7 +140,9 @@ type parsed struct {
 	Consumed int
 	Stall    bool
 	Closes   bool
-	Msg      *p2p.Message
+	// Huge: the frame declares >= 512 MiB (payload length or bitfield bits/8).
+	Huge bool
+	Msg  *p2p.Message
 }
 
 func bitsetHeader(b []byte) (length uint64, words int, ok bool) {
@@ -181,7 +183,7 @@ func classifyFrame(st stage, stream []byte, geoms []*geom, target *geom) parsed 
 	}
 	l := binary.BigEndian.Uint32(stream)
 	if l > maxMessageSize {
-		return parsed{Class: "frame-oversized-length-prefix", Hostile: true, Consumed: 4, Closes: true}
+		return parsed{Class: "frame-oversized-length-prefix", Hostile: true, Consumed: 4, Closes: true, Huge: l >= 1<<29}
 	}
 	if int(l) > len(stream)-4 {
 		return parsed{Class: "frame-truncated-body", Hostile: true, Consumed: len(stream), Stall: true}
@@ -194,8 +196,16 @@ func classifyFrame(st stage, stream []byte, geoms []*geom, target *geom) parsed 
 	p := parsed{Consumed: 4 + int(l), Msg: m}
 	if st == stHandshake {
 		p.Class, p.Hostile = classifyHandshake(m, geoms)
-		if p.Class != "valid-handshake" {
-			// everything but a fully valid handshake may legitimately end the connection
+		if b := m.Bitfield; b != nil {
+			hdrs := [][]byte{b.BitfieldBytes}
+			for _, rb := range b.RemoteBitfieldBytes {
+				hdrs = append(hdrs, rb)
+			}
+			for _, h := range hdrs {
+				if l, _, ok := bitsetHeader(h); ok && l >= 1<<32 && l < 1<<50 {
+					p.Huge = true
+				}
+			}
 		}
 		return p
 	}
@@ -274,6 +284,7 @@ func classifyFrame(st stage, stream []byte, geoms []*geom, target *geom) parsed 
 		}
 		avail := len(stream) - p.Consumed
 		oversized := int64(pp.Length) > g.PieceLength
+		p.Huge = pp.Length >= 1<<29
 		if int(pp.Length) > avail {
 			p.Stall = true
 			p.Consumed = len(stream)
@@ -473,9 +484,17 @@ func genEstablishedFrame(r *rand.Rand, g *geom) []byte {
 		case 1:
 			// declared length far beyond any piece
 			off = 0
-			l = []int32{int32(g.PieceLength) * 2, 1 << 20, 64 << 20, 64 << 20, 1<<31 - 1}[r.Intn(5)]
+			// (2 GiB declarations are kept rare: against the unpatched code each one
+			// really commits and clears 2 GiB in the child)
+			l = []int32{int32(g.PieceLength) * 2, 1 << 20, 16 << 20, 64 << 20, 64 << 20, 64 << 20, 128 << 20, 1<<31 - 1}[r.Intn(8)]
+			if l == 1<<31-1 && r.Intn(2) == 0 {
+				l = 64 << 20
+			}
 		default:
 			off, l = genOff(r, g), genLen(r, g, i)
+			if l == 1<<31-1 && r.Intn(4) != 0 {
+				l = 32 << 20
+			}
 		}
 		b := frame(piecePayload(int(i), int64(off), int64(l)))
 		// body: exact / short / long / corrupt, bounded so the stream stays small
@@ -575,7 +594,7 @@ func genHandshakeFrame(r *rand.Rand, g *geom, other *geom) []byte {
 	case k == 4: // shorter (incl. empty)
 		return frame(handshakeMsg(g, randPeerID(r), bitsetBytes(r.Intn(g.N), full)))
 	case k < 8: // oversized bitfield length header, little or no data behind it
-		hdr := []uint64{1 << 21, 1 << 33, 1 << 33, 1 << 40, 1 << 40, 1 << 63, 1<<64 - 1}[r.Intn(7)]
+		hdr := []uint64{1 << 21, 1 << 29, 1 << 30, 1 << 30, 1 << 33, 1 << 40, 1 << 40, 1 << 63, 1<<64 - 1}[r.Intn(9)]
 		return frame(handshakeMsg(g, randPeerID(r), bitfieldBytes(hdr, make([]uint64, r.Intn(3)))))
 	case k == 8: // truncated / short bitfield bytes
 		b := bitsetBytes(g.N, full)
@@ -585,7 +604,7 @@ func genHandshakeFrame(r *rand.Rand, g *geom, other *geom) []byte {
 		m.Bitfield.RemoteBitfieldBytes = map[string][]byte{}
 		switch r.Intn(3) {
 		case 0:
-			hdr := []uint64{1 << 33, 1 << 40}[r.Intn(2)]
+			hdr := []uint64{1 << 30, 1 << 30, 1 << 33, 1 << 40}[r.Intn(4)]
 			m.Bitfield.RemoteBitfieldBytes[randPeerID(r)] = bitfieldBytes(hdr, nil)
 		case 1:
 			for i := 0; i < 200; i++ {
